@@ -217,6 +217,7 @@ func PrepareConfig(mode Mode, cfgYAML, rulesPath string, svcPort, mgmtPort int) 
 	setPath(root, false, false, "tracing", "enabled")
 	setPath(root, false, false, "profiling", "enabled")
 	setPath(root, "error", false, "log", "level")
+	setPath(root, "gelf", false, "log", "format") // JSON lines (the runner drops lines starting with "{")
 
 	out, err := yaml.Marshal(root)
 
@@ -390,7 +391,18 @@ func (a *App) Do(req *http.Request) (*http.Response, error) {
 // client refuses to send: odd header casing, duplicate Host, raw targets ...).
 // The raw request should carry `Connection: close`.
 func (a *App) RawRequest(raw string, timeout time.Duration) (string, error) {
-	c, err := net.DialTimeout("tcp", a.Addr, timeout)
+	return a.RawRequestFrom("", raw, timeout)
+}
+
+// RawRequestFrom is RawRequest with the connection made from the given local
+// (loopback) address, e.g. "127.0.0.7", so that the service sees that peer.
+func (a *App) RawRequestFrom(localIP, raw string, timeout time.Duration) (string, error) {
+	d := net.Dialer{Timeout: timeout}
+	if localIP != "" {
+		d.LocalAddr = &net.TCPAddr{IP: net.ParseIP(localIP)}
+	}
+
+	c, err := d.Dial("tcp", a.Addr)
 	if err != nil {
 		return "", err
 	}
